@@ -180,9 +180,9 @@ void op_sign(const Case& c, TaskCtx& t, Outcome& o) {
     if (t.stats)
       t.stats->hit(cap < needed ? "c06.cap_below_needed" : cap < mx ? "c06.cap_between" : "c06.cap_full");
     if (cb && !cb->canaries_intact())
-      CHECK_FAIL("C06.wrote_outside_buffer", "canary around the output buffer changed, cap=" + std::to_string(cap));
+      CHECK_FAIL(owned("C06.wrote_outside_buffer", {"C17"}), "canary around the output buffer changed, cap=" + std::to_string(cap));
     if (cap < needed && rc == 0)
-      CHECK_FAIL("C06.success_with_short_buffer", std::string(p.name) + ": sign returned 0 with capacity " + std::to_string(cap) +
+      CHECK_FAIL(owned("C06.success_with_short_buffer", {"C17"}), std::string(p.name) + ": sign returned 0 with capacity " + std::to_string(cap) +
                                                                " < needed " + std::to_string(needed) + " (reported len " + std::to_string(len) + ")");
     if (cap >= mx && rc != 0)
       CHECK_FAIL("C06.failed_with_full_buffer", std::string(p.name) + ": sign failed with capacity " + std::to_string(cap) + " >= max");
@@ -259,6 +259,13 @@ void op_sign(const Case& c, TaskCtx& t, Outcome& o) {
         t.stats->hit("c09.secret_scanned");
       if (s.data.size() >= 16 && memmem(sig.data(), sig.size(), s.data.data(), s.data.size()))
         CHECK_FAIL("C09.secret_in_signature", std::string(p.name) + ": " + s.what + " occurs in the signature");
+      // ... nor anywhere else in what the call hands back: the caller's buffer beyond the reported length
+      if (s.data.size() >= 16 && cap > len) {
+        const void* hit = memmem(out + len, cap - len, s.data.data(), s.data.size());
+        if (hit)
+          CHECK_FAIL("C09.secret_left_in_output_buffer", std::string(p.name) + ": " + s.what + " was written to the caller's buffer at offset " +
+                                                             std::to_string((const uint8_t*)hit - out) + ", beyond the reported length " + std::to_string(len));
+      }
     }
     if (t.stats) {
       t.stats->hit("c09.signatures");
@@ -281,7 +288,7 @@ void op_sign(const Case& c, TaskCtx& t, Outcome& o) {
   // ---- C13 advertised maximum
   if (has_chk(c, "c13")) {
     if (rc != 0)
-      CHECK_FAIL("C13.sign_failed_at_advertised_size", std::string(p.name) + " och=" + c.s("och") + ": sign failed with a buffer of the advertised size " +
+      CHECK_FAIL(owned("C13.sign_failed_at_advertised_size", {"C17"}), std::string(p.name) + " och=" + c.s("och") + ": sign failed with a buffer of the advertised size " +
                                                                     std::to_string(cap));
     if (len > mx)
       CHECK_FAIL("C13.len_exceeds_advertised", "len " + std::to_string(len) + " > advertised " + std::to_string(mx));
@@ -717,14 +724,14 @@ void op_signbad(const Case& c, TaskCtx& t, Outcome& o) {
     CHECK_FAIL("C12.wrote_outside_buffer", "canary around the output buffer changed");
   if (!expect_ok) {
     if (rc == 0)
-      CHECK_FAIL("C12.signed_with_inconsistent_key", std::string(p.name) + " " + family_tag(c) + " surf" + std::to_string(surf) + ": sign returned 0 for a key corrupted at bit(s) " +
+      CHECK_FAIL(owned("C12.signed_with_inconsistent_key", {"C17"}), std::string(p.name) + " " + family_tag(c) + " surf" + std::to_string(surf) + ": sign returned 0 for a key corrupted at bit(s) " +
                                                                   c.s("cf") + " (0-7 parameter byte, then sk, C, pt)");
     if (surf != 2 && cb.first_touched_from(0) != cap)
       CHECK_FAIL("C12.wrote_output_on_refusal", std::string(p.name) + ": output buffer modified at byte " + std::to_string(cb.first_touched_from(0)) +
                                                              " although signing was refused");
   } else {
     if (rc != 0)
-      CHECK_FAIL("C12.refused_consistent_key", std::string(p.name) + ": key is consistent under parameter byte " + std::to_string(pb) + " but signing was refused");
+      FAIL_STOP("C12.refused_consistent_key", std::string(p.name) + ": key is consistent under parameter byte " + std::to_string(pb) + " but signing was refused");
     bytes sig(cb.p(), cb.p() + std::min(len, cap));
     int v = cleancall([&] { return s_verify(0, kq, msg.data(), msg.size(), sig.data(), sig.size()); });
     if (v != 0)
